@@ -1,10 +1,12 @@
-// Command harness runs the implementation side of the correspondence checks.
+package hx
+
+// Main is the command line of every per-property harness binary
+// (cmd/cXX/main.go imports its property package and calls Main()):
 //
 //	harness gen    <ID> -seed S -tier quick|thorough -out DIR [-shards K] [-corpus DIR]
 //	harness replay <ID> -file F -out DIR
 //	harness shrink <ID> -file F -out DIR      (writes all shrink candidates as cases)
 //	harness list
-package main
 
 import (
 	"encoding/json"
@@ -13,8 +15,6 @@ import (
 	"os"
 	"path/filepath"
 	"sort"
-
-	"verifharness/internal/hx"
 )
 
 func fatal(f string, a ...any) {
@@ -22,8 +22,8 @@ func fatal(f string, a ...any) {
 	os.Exit(2)
 }
 
-func runAll(p *hx.Prop, inputs []json.RawMessage) []hx.Case {
-	cases := make([]hx.Case, 0, len(inputs))
+func runAll(p *Prop, inputs []json.RawMessage) []Case {
+	cases := make([]Case, 0, len(inputs))
 	for _, in := range inputs {
 		c, err := p.Run(in)
 		if err != nil {
@@ -54,13 +54,14 @@ func readReplayInput(file string) json.RawMessage {
 	return nil
 }
 
-func main() {
+// Main runs the CLI.
+func Main() {
 	if len(os.Args) < 2 {
 		fatal("usage: harness gen|replay|shrink|list ...")
 	}
 	cmd := os.Args[1]
 	if cmd == "list" {
-		for _, id := range hx.IDs() {
+		for _, id := range IDs() {
 			fmt.Println(id)
 		}
 		return
@@ -69,7 +70,7 @@ func main() {
 		fatal("missing property id")
 	}
 	id := os.Args[2]
-	p := hx.Lookup(id)
+	p := Lookup(id)
 	if p == nil {
 		fatal("unknown property %s", id)
 	}
@@ -95,9 +96,9 @@ func main() {
 				inputs = append(inputs, readReplayInput(f))
 			}
 		}
-		inputs = append(inputs, p.Gen(hx.NewRand(*seed), *tier)...)
+		inputs = append(inputs, p.Gen(NewRand(*seed), *tier)...)
 		cases := runAll(p, inputs)
-		if err := hx.WriteCases(p, cases, *out, *shards); err != nil {
+		if err := WriteCases(p, cases, *out, *shards); err != nil {
 			fatal("write: %v", err)
 		}
 		meta := map[string]any{"rule": p.Rule, "count": len(cases)}
@@ -106,7 +107,7 @@ func main() {
 	case "replay":
 		in := readReplayInput(*file)
 		cases := runAll(p, []json.RawMessage{in})
-		if err := hx.WriteCases(p, cases, *out, 1); err != nil {
+		if err := WriteCases(p, cases, *out, 1); err != nil {
 			fatal("write: %v", err)
 		}
 	case "shrink":
@@ -116,7 +117,7 @@ func main() {
 			cands = p.Shrink(in)
 		}
 		cases := runAll(p, cands)
-		if err := hx.WriteCases(p, cases, *out, 1); err != nil {
+		if err := WriteCases(p, cases, *out, 1); err != nil {
 			fatal("write: %v", err)
 		}
 	default:
